@@ -37,6 +37,10 @@ IDENTITY = {
     "core::mem::ManuallyDrop::<T>::new": "arg0",
     "core::mem::MaybeUninit::<T>::as_ptr": "arg0",
     "core::mem::MaybeUninit::<T>::as_mut_ptr": "arg0",
+    "core::mem::MaybeUninit::<T>::assume_init_mut": "arg0",
+    "core::mem::MaybeUninit::<T>::assume_init_ref": "arg0",
+    "core::num::<impl isize>::unsigned_abs": "arg0",
+    "core::ptr::NonNull::<T>::as_non_null_ptr": "arg0",
     "core::pin::Pin::<Ptr>::new_unchecked": "arg0",
     "core::convert::identity": "arg0",
     "core::borrow::Borrow::borrow": None,  # not identity in general
@@ -86,6 +90,12 @@ def mk_field(base, name, of=""):
         r = mk_bin(base[1][: -len("WithOverflow")], base[2], base[3])
         if r[0] == "const" and r[1] is not None:
             return const(0)
+    # payload of an Option whose discriminant is unknown but whose Some-payload is known
+    if base[0] == "variant" and base[2] == "Some" and base[1][0] == "optpay" and name in ("0", 0):
+        return base[1][2]
+    # (0usize.checked_sub(x) as Some).0 can only be 0
+    if base[0] == "variant" and base[2] == "Some" and base[1][0] == "call" and base[1][2].endswith("::checked_sub") and len(base[1][3]) == 2 and is_const(base[1][3][0], 0) and name in ("0", 0):
+        return const(0)
     if base[0] == "variant" and base[1][0] == "agg":
         agg = base[1]
         if agg[3] == base[2]:
@@ -108,6 +118,8 @@ def mk_cast(kind, e, tykind):
 
 
 def mk_discr(e, enum_discr=None):
+    if e[0] == "optpay":
+        return ("discr", e[1])
     if e[0] == "agg" and (e[2] in SAFE_DISCR_ADTS or (enum_discr and e[2] in enum_discr)):
         return const(e[4])
     return ("discr", e)
@@ -192,6 +204,17 @@ def mk_call(site, callee, args, argtys=None):
         return args[0][5][0][1]
     if d in ("core::option::Option::<T>::unwrap", "core::option::Option::<T>::expect", "core::option::Option::<T>::unwrap_unchecked") and args and args[0][0] == "agg" and args[0][3] == "Some":
         return args[0][5][0][1]
+    if d.startswith("core::num::<impl usize>::checked_") and len(args) == 2 and is_const(args[0]) and is_const(args[1]):
+        x, y = int(args[0][1]), int(args[1][1])
+        r = None
+        if d.endswith("checked_sub"):
+            r = x - y if x >= y else None
+        elif d.endswith("checked_add"):
+            r = x + y if x + y < 2 ** 64 else None
+        if d.endswith("checked_sub") or d.endswith("checked_add"):
+            if r is None:
+                return mk_agg("adt", "core::option::Option", "None", 0, ())
+            return mk_agg("adt", "core::option::Option", "Some", 1, (("0", const(r)),))
     if d == "core::mem::take" and args:
         # the old value of a place that is not part of an RcBox (those are move-out events)
         if box_part(args[0]) is None:
@@ -216,7 +239,7 @@ def children(e):
         return tuple(x for _, x in e[5])
     if k in ("param", "unk", "const", "fn"):
         return ()
-    if k in ("field", "variant", "deref", "ref", "discr", "idx", "content", "content_of_guard", "repeat", "proj"):
+    if k in ("field", "variant", "deref", "ref", "discr", "idx", "content", "content_of_guard", "repeat", "proj", "stepped"):
         return (e[1],)
     if k == "cast":
         return (e[2],)
@@ -224,6 +247,8 @@ def children(e):
         return (e[2], e[3])
     if k == "un":
         return (e[2],)
+    if k == "optpay":
+        return (e[1], e[2])
     return tuple(x for x in e[1:] if isinstance(x, tuple) and x and isinstance(x[0], str))
 
 
@@ -296,11 +321,20 @@ BOX_FIELDS = ("strong", "weak", "links", "value")
 
 
 def box_part(e):
-    """If `e` is (a pointer to) a field of an RcBox, return (boxptr_expr, field)."""
+    """If `e` is (a pointer to) a field of an RcBox, return (boxptr_expr, field).  The counters may sit in a
+    nested header struct of the crate (`(*b).header.strong`)."""
     if e[0] == "ref":
         e = e[1]
     if e[0] == "field" and e[3] == RCBOX and e[2] in BOX_FIELDS and e[1][0] == "deref":
         return e[1][1], e[2]
+    if e[0] == "field" and e[2] in ("strong", "weak") and e[3].startswith("cactusref::"):
+        x = e[1]
+        n = 0
+        while x[0] == "field" and x[3].startswith("cactusref::") and n < 3:
+            if x[3] == RCBOX and x[1][0] == "deref":
+                return x[1][1], e[2]
+            x = x[1]
+            n += 1
     return None
 
 
